@@ -953,7 +953,15 @@ func ruleLibParse(c *Ctx, r *R) {
 			_ = regexpGuard
 			// an integer parser whose result becomes a Number: the integer has no negative zero, so "-0" (a valid
 			// StrDecimalLiteral, value -0: ES5 9.3.1) must not reach it
-			if name != "ParseFloat" && len(fn.Params) >= 1 && fn.Signature.Results().Len() == 1 && typeStr(fn.Signature.Results().At(0).Type()) == "float64" && intResultToFloat(pc) {
+			// (decimal parsers only: strconv.Atoi and ParseInt with the constant base 10 - a hexadecimal literal has no sign,
+			// and whether a signed text can reach a base-0 / base-16 parse is the grammar obligation above)
+			decimal := name == "Atoi"
+			if name == "ParseInt" && len(pc.Call.Args) >= 2 {
+				if k, ok := constInt(pc.Call.Args[1]); ok && k == 10 {
+					decimal = true
+				}
+			}
+			if decimal && len(fn.Params) >= 1 && fn.Signature.Results().Len() == 1 && typeStr(fn.Signature.Results().At(0).Type()) == "float64" && intResultToFloat(pc) {
 				old := goOnlyNumericForms
 				goOnlyNumericForms = []string{"-0", "-00", "-0000000000"}
 				grammarCutOnly = true
